@@ -121,9 +121,14 @@ def k_direct(run, case):
     unit = case.get("unit") or UNITS[rng.integers(4)]
     all_pairs = bool(rng.random() < .4)
     from_ref = bool(rng.random() < .4)
+    if "all_pairs" in case:
+        all_pairs = bool(case["all_pairs"])
     if unit in ("radians", "degrees") and all_pairs:
         n = min(n, 150)
-    ref = gen.traj_arrays(rng, n, pos_cls=["walk", "utm", "stationary_mix", "grid", "circle", "tiny"][rng.integers(6)])
+    if case.get("big"):
+        n = int(rng.integers(1030, 1400))  # beyond typical block / chunk sizes
+    ref = gen.traj_arrays(rng, n, pos_cls=["walk", "utm", "stationary_mix", "grid", "circle", "tiny"][rng.integers(6)],
+                          rot_cls=["smooth", "uniform"][rng.integers(2)] if case.get("big") else None)
     est = gen.perturbed_estimate(rng, ref, hostile=True)
     if rng.random() < .5:
         A = gen.rand_se3(rng, tscale=float(np.std(ref["p"])) + 1)
@@ -138,6 +143,8 @@ def k_direct(run, case):
     else:
         delta = rng.uniform(0.05, PI) * (180 / PI if unit == "degrees" else 1)
     rel_tol = [0.01, 0.1, 0.5][rng.integers(3)]
+    if case.get("big") and unit in ("radians", "degrees"):
+        delta, rel_tol = rng.uniform(0.2, 2.5) * (180 / PI if unit == "degrees" else 1), 0.02
     m1 = "se3" if rng.random() < .5 else "xyzq"
     m2 = "se3" if rng.random() < .5 else "xyzq"
     t_ref = gen.make_evo(ref, m1, False, flavour=gen.rand_flavour(rng))
@@ -162,6 +169,11 @@ def k_direct(run, case):
         return
     run.check(len(rec.calls) == 1, "pairs recorded at id_pairs_from_delta", case,
               "id_pairs_from_delta was reached %d times" % len(rec.calls))
+    fwd = [(i, j) for (i, j) in pairs if not 0 <= i < j < n]
+    if not run.check(not fwd, "RPE: every evaluated pair is a relative motion i -> j with 0 <= i < j < N", case,
+                     "values were computed for %d pairs that are no forward pairs, e.g. %s" % (len(fwd), fwd[:3]),
+                     key="rpe:pair-not-forward"):
+        return
     if rec.calls:
         exp_first = rm.se3((ref if from_ref else est)["R"][0], (ref if from_ref else est)["p"][0])
         run.check(float(np.max(np.abs(rec.calls[0]["first_T"] - exp_first))) <= 1e-9 * (1 + float(np.max(np.abs(exp_first)))),
@@ -409,6 +421,9 @@ def main(run):
         k_direct(run, run.case("direct", 10**6 + i, **corpus[i]))
     for i in run.mine({"quick": 1200, "thorough": 30000}[run.tier]):
         k_direct(run, run.case("direct", i))
+    for i in run.mine({"quick": 4, "thorough": 32}[run.tier]):
+        k_direct(run, run.case("direct", 2 * 10**6 + i, big=True, unit=["degrees", "radians", "meters", "frames"][i % 4],
+                               all_pairs=True))
     for i in run.mine({"quick": 100, "thorough": 2000}[run.tier]):
         k_unequal(run, run.case("unequal", i))
     for i in run.mine({"quick": 400, "thorough": 8000}[run.tier]):
